@@ -2,7 +2,7 @@
 C11 — trace-level clauses.  Two predicates on event traces that mention neither the model nor the oracle state:
 
   beatsOnce     between two `tickBegin` no object has two `beat` events
-  calledOnlyOn  after `dest _ t` or `shb _ t 0 _` (t destructed / t switched its heart beat off) there is no `beat t`
+  calledOnlyOn  after `dest _ t`, `hookEnd t` (the driver destructed the item t of a dying carrier) or `shb _ t 0 _` (t destructed / t switched its heart beat off) there is no `beat t`
                 until a later `shb _ t n _` with n ≠ 0 (or t is created by a later clone event)
 
 `accepted_trace_ok`: every trace that the oracle accepts (`judgeEv tr = []`) satisfies both - for real driver traces
@@ -22,6 +22,7 @@ def seenStep (seen : List Nat) : Ev → List Nat
 
 def offStep (off : List Nat) : Ev → List Nat
   | .dest _ t => t :: off
+  | .hookEnd t => t :: off
   | .shb _ t n _ => if n = 0 then t :: off else off.filter (· ≠ t)
   | .clone _ new _ _ _ => off.filter (· ≠ new)
   | _ => off
@@ -511,6 +512,38 @@ theorem JI_step {j : JState} {seen off : List Nat} (h : JI j seen off) (e : Ev)
     split
     · exact h
     · rename_i hc; rw [if_neg hc] at hacc; exact absurd hacc (flagV_bad_ne rfl)
+  | into i c => exact ⟨rfl, rfl, h⟩
+  | intoNone i c => exact ⟨rfl, rfl, h⟩
+  | hook i c =>
+    refine ⟨rfl, rfl, ?_⟩
+    simp only [judge1] at hacc ⊢
+    split
+    · rename_i hc; rw [if_pos hc] at hacc; exact absurd hacc (flagV_bad_ne rfl)
+    · exact h
+  | hookEnd t =>
+    refine ⟨rfl, rfl, ?_⟩
+    simp only [judge1] at hacc ⊢
+    split
+    · rename_i hc; rw [if_pos hc] at hacc; exact absurd hacc (flagV_bad_ne rfl)
+    · rename_i hc
+      rw [if_neg hc] at hacc
+      have hop : opAllowed j = true := by simpa using hc
+      split
+      · rename_i hc2; rw [if_pos hc2] at hacc; exact absurd hacc (flagV_bad_ne rfl)
+      · have hd := JI_jDisable h t (opAllowed_ne hop)
+        exact ⟨hd.nodup, hd.hseen, hd.hoff, hd.exp⟩
+  | hookGone i =>
+    refine ⟨rfl, rfl, ?_⟩
+    simp only [judge1] at hacc ⊢
+    split
+    · rename_i hc; rw [if_pos hc] at hacc; exact absurd hacc (flagV_bad_ne rfl)
+    · exact h
+  | destGone s t =>
+    refine ⟨rfl, rfl, ?_⟩
+    simp only [judge1] at hacc ⊢
+    split
+    · rename_i hc; rw [if_pos hc] at hacc; exact absurd hacc (flagV_bad_ne rfl)
+    · exact h
   | err o =>
     refine ⟨rfl, rfl, ?_⟩
     rw [judge1_err]
@@ -628,6 +661,17 @@ theorem judge1_bad (j : JState) (e : Ev) : (judge1 j e).bad = j.bad ∨ ∃ v, (
         · rw [if_pos hq]; exact Or.inl (hb.trans hf1)
         · rw [if_neg hq]; exact Or.inr ⟨_, congrArg (List.cons _) (hb.trans hf1)⟩
   | cloneDup s new => simp only [judge1]; split <;> first | exact Or.inl rfl | exact Or.inr ⟨_, rfl⟩
+  | into i c => exact Or.inl rfl
+  | intoNone i c => exact Or.inl rfl
+  | hook i c => simp only [judge1]; split <;> first | exact Or.inl rfl | exact Or.inr ⟨_, rfl⟩
+  | hookEnd t =>
+    simp only [judge1]; split
+    · exact Or.inr ⟨_, rfl⟩
+    · split
+      · exact Or.inr ⟨_, rfl⟩
+      · exact Or.inl (jDisable_frame j t).bad
+  | hookGone i => simp only [judge1]; split <;> first | exact Or.inl rfl | exact Or.inr ⟨_, rfl⟩
+  | destGone s t => simp only [judge1]; split <;> first | exact Or.inl rfl | exact Or.inr ⟨_, rfl⟩
   | err o => rw [judge1_err]; exact Or.inl (jErr_bad j)
   | topErr o => exact Or.inl rfl
   | topDead o => simp only [judge1]; split <;> first | exact Or.inl rfl | exact Or.inr ⟨_, rfl⟩
@@ -684,19 +728,22 @@ theorem judge_ok_implies_clauses (tr : List Ev) (h : judgeEv tr = []) :
 
 /-- **at_most_once_per_tick.**  In every run of the model - all populations, scripts, interleavings, tick counts -
     no object's heart_beat runs twice between two `tickBegin` events. -/
-theorem at_most_once_per_tick (sc : Scripts) (cmds : List Cmd) : beatsOnce [] (events sc cmds) = true :=
-  (judge_ok_implies_clauses _ (model_satisfies_spec sc cmds)).1
+theorem at_most_once_per_tick (sc : Scripts) (cmds : List Cmd) (hk : Nat → List Op := fun _ => []) :
+    beatsOnce [] (events sc cmds hk) = true :=
+  (judge_ok_implies_clauses _ (model_satisfies_spec sc cmds hk)).1
 
 /-- **disabled_or_destructed_never_called.**  In every run of the model, after `destruct(t)` or after t executed
     `set_heart_beat(0)` there is no heart_beat of t - until (for a live t) a later `set_heart_beat(n)`, n ≠ 0. -/
-theorem disabled_or_destructed_never_called (sc : Scripts) (cmds : List Cmd) :
-    calledOnlyOn [] (events sc cmds) = true :=
-  (judge_ok_implies_clauses _ (model_satisfies_spec sc cmds)).2
+theorem disabled_or_destructed_never_called (sc : Scripts) (cmds : List Cmd) (hk : Nat → List Op := fun _ => []) :
+    calledOnlyOn [] (events sc cmds hk) = true :=
+  (judge_ok_implies_clauses _ (model_satisfies_spec sc cmds hk)).2
 
 -- non-vacuity: the predicates reject what they should
 example : beatsOnce [] [.tickBegin, .beat 2, .beatEnd 2, .beat 2] = false := by decide
 example : calledOnlyOn [] [.shb 2 2 0 0, .tickBegin, .beat 2] = false := by decide
 example : calledOnlyOn [] [.dest 3 2, .tickBegin, .beat 2] = false := by decide
+example : calledOnlyOn [] [.hook 5 2, .shb 5 2 1 1, .hookEnd 5, .dest 3 2, .tickBegin, .beat 2] = false := by decide
+example : calledOnlyOn [] [.hook 5 2, .hookEnd 5, .tickBegin, .beat 5] = false := by decide
 example : calledOnlyOn [] [.shb 2 2 0 0, .shb 3 2 1 1, .tickBegin, .beat 2] = true := by decide
 
 end NV.C11
